@@ -33,9 +33,9 @@ MANIFEST = {
              "SsdpProtocol.datagram_received of all four endpoints, with a malformed stream generated per raising primitive "
              "and call site; the Lean judge is evaluated on the implementation's observations."),
     "note": ("Trusted: Lean kernel + standard axioms; the catalogue of raising primitives (which library calls can raise what) "
-             "is validated only by the differential stream; Python int()/regex/str.lower on non-ASCII text, URLs outside the "
-             "modelled grammar and the C04 change-detection logic (whether ssdp:alive of a known device notifies) are outside "
-             "the model; the tracker is modelled as far as the device keys, valid_to and next_valid_to."),
+             "is pinned against the source (sites_covered) and validated by the differential stream; non-ASCII digits/blanks in MX and "
+             "CACHE-CONTROL and URLs outside the modelled grammar are outside the model; the combined listener is the C03/C04 tracker "
+             "model composed with the C01 decoder model (interface assumption proved: decode_guarantee), its callbacks compared exactly."),
     "technique": "Lean 4 proof (totality of an Except-model by case analysis, invariants over datagram sequences) + model/implementation correspondence",
 }
 RULE = ("sequences of 1..20 datagrams to one of five entry points (advertisement listener, search listener, SsdpListener via its "
@@ -52,7 +52,7 @@ ASSUMPTIONS = [
     "ST / USN / NT / NTS / MAN may be any text: str.lower() is modelled by ASCII lower-casing plus U+212A KELVIN SIGN -> k, the only non-ASCII "
     "character whose lower-case form is pure ASCII (enumerated over all code points at the start of every run); device UDNs and types are ASCII",
     "a LOCATION outside the modelled URL grammar from a scoped IPv6 sender is compared only for raise/no-raise; the model then adopts the implementation's tracker state",
-    "whether ssdp:alive of an already known device notifies is C04's concern: the model allows 0 or 1 callback there",
+    "the combined listener is the C03/C04 tracker model run on the C01 decoder's header map; its callback (device, type, source) is compared exactly",
     "datetime.now is a virtual clock (ssdp.datetime patched); the responder's event loop is a stub that records call_at",
 ]
 TRUSTED = ["C02: which exception classes each primitive on the receive path can raise (catalogue in Model/C02Recv.lean) is validated by sampling only"]
